@@ -37,4 +37,31 @@ TEXT["C16"] = {
             "strings up to length 4 (6 thorough) over a 14-character alphabet plus generated/mutated headers and values.",
     "note": COMMON_NOTE + "strconv.Quote/FormatInt/ParseInt and encoding/base64 are modelled (base64 validated "
             "against Go's by the C14 stream). The draft's integer digit cap is not demanded (text unavailable offline)."}
+SXG_NOTE = (COMMON_NOTE + "ECDSA, X.509 and certificate fetching are oracles (per-case tables recorded by the harness from the "
+            "Go standard library: a (key, message, signature) triple not produced by the signer is taken as not verifying); "
+            "url.Parse is a partial Gallina model validated against net/url each run, cases outside it are skipped and counted; "
+            "http.StatusText table taken from the toolchain; time.Time modelled on integers incl. the int64 wrap of time.Unix.")
+TEXT["C01"] = {
+    "text": "Theorems over the model of Verify/verifySignature/serializeSignedMessage: the signed message determines the signed "
+            "fields (injectivity, both layouts), success implies signature, cert hash, window and MI-authenticated payload; "
+            "model compared with the real verifier on honestly signed exchanges under semantic field edits, Signature "
+            "parameter edits, certificate substitution, file bit flips / truncation / insertion / deletion and boundary times.",
+    "note": SXG_NOTE}
+TEXT["C02"] = {
+    "text": "Theorems: write-then-read returns the canonical exchange, limits are enforced (no file that reads back "
+            "differently), verdict invariant under the round trip; model compared with the library on sign->write->read->"
+            "verify flows (versions x curves x record sizes x payload lengths) and at every length-field boundary.",
+    "note": SXG_NOTE}
+TEXT["C08"] = {
+    "text": "Theorems: model serializers (header CBOR, signed message b1 and b2/b3, Signature header, file layout, header "
+            "integrity) equal an independent spec transcription built on the generic canonical CBOR encoder; model "
+            "compared byte-for-byte with DumpExchangeHeaders / DumpSignedMessage / AddSignatureHeader (mock algorithm) / "
+            "Write / ComputeHeaderIntegrity every run.",
+    "note": SXG_NOTE}
+TEXT["C09"] = {
+    "text": "Theorem: model verify succeeds iff an independent acceptance predicate (same-origin, window, lifetime, "
+            "integrity scheme, method/stateful headers, Content-Type + RFC 7234 storability, banned headers) holds; "
+            "model compared with the real verifier on the policy grid (times at the boundaries, methods, banned headers in "
+            "random letter case, Cache-Control subsets, Expires, status codes, validity-URL variants).",
+    "note": SXG_NOTE}
 NOT_YET = {}
